@@ -8,3 +8,23 @@ check("C10",
       "3-vector; box axis-aligned with symbolic origin/extents; sequences of at most 2 re-indexing operations",
       "symbolic execution of the real Python code with z3 (symx), fork-on-value for selectors, concrete replay",
       "DESIGN.md 4/C10")
+check("C01",
+      "Bounded symbolic execution of the real Mesh.assemble/grade path (BlockList, Block, Axis, Wire managers, Grading, Chop, "
+      "relations) on lattice topologies of 2-4 (thorough: 5) unit blocks with a symbolic chop flag and a symbolic count in "
+      "[1,6] per block direction and solver-chosen iteration order of every neighbour/coincident set; z3 must refute "
+      "'success and two wires on one geometric edge differ', 'a wire differs from the written count' and 'success and two "
+      "chops of one family differ'. Independent oracle: union-find over vertex indices.",
+      "count-only chops; lattice topologies listed in evidence.bounds; loop cap as unwinding assertion; the partial-order "
+      "reduction of set iteration orders is enabled only when the AST of the two consuming loops in the current source "
+      "justifies it",
+      "symbolic execution of the real Python code with z3 (symx); schedules as solver variables; concrete replay",
+      "DESIGN.md 4/C01")
+check("C02",
+      "Same symbolic run as C01 judged for termination (unwinding bound on the copy step), completeness (families with "
+      "agreeing chops end in success with the chop's count, families without chop end in UndefinedGradingsError), absence "
+      "of spurious errors, and determinism across schedules (pairwise solver query over explored paths with equal flags).",
+      "as C01; determinism is checked between explored schedules of one insertion order, order-independence by running "
+      "several insertion orders/corner numberings against the same order-free oracle",
+      "symbolic execution of the real Python code with z3 (symx); set-iteration schedules as solver variables; cross-path "
+      "solver queries; concrete replay with forced schedules",
+      "DESIGN.md 4/C02")
